@@ -9,7 +9,7 @@ import paramiko.transport as _ptr
 from paramiko.server import InteractiveQuery
 
 from vf.authkit import (AUTH_FAILED, AUTH_PARTIALLY_SUCCESSFUL, AUTH_SUCCESSFUL, MSG_USERAUTH_INFO_RESPONSE,
-                        MSG_USERAUTH_REQUEST, MSG_USERAUTH_SUCCESS, FenceTimeout, Sess, episodes, sstr, u32)
+                        MSG_USERAUTH_REQUEST, MSG_USERAUTH_SUCCESS, FenceTimeout, Sess, episodes, sstr, started, u32)
 from vf.props.c14 import KRB5_OID, install_gss_stub
 
 META = dict(
@@ -314,11 +314,11 @@ def judge(ctx, sess, desc, pmark, since_n, control=False):
 
 def run_session(ctx, rng, desc):
     point = desc["point"]
-    sess = Sess(rng, policy=policy_for(point))
+    sess = started(lambda: Sess(rng, policy=policy_for(point)), lambda s: s.start(auth=False))
+    if sess is None:
+        ctx.inconclusive("handshake failed three times")
+        return
     try:
-        if not sess.start(auth=False):
-            ctx.inconclusive("handshake failed")
-            return
         if not reach_point(ctx, sess, point, rng):
             ctx.inconclusive("could not reach auth point %s (victim active=%s exc=%r)"
                              % (point, sess.victim.is_active(), sess.victim.saved_exception))
@@ -346,11 +346,11 @@ def run_session(ctx, rng, desc):
 
 def run_control(ctx, rng):
     """Authenticated session sending the same kinds of messages: every monitor must fire."""
-    sess = Sess(rng, policy=dict(check_port_forward_request=4022))
+    sess = started(lambda: Sess(rng, policy=dict(check_port_forward_request=4022)), lambda s: s.start(auth=True))
+    if sess is None:
+        ctx.inconclusive("control handshake/auth failed three times")
+        return
     try:
-        if not sess.start(auth=True):
-            ctx.inconclusive("control handshake/auth failed")
-            return
         pmark = Probe.mark()
         since_n = sess.att.mark()
         sess.step(90, sstr("session") + u32(7) + u32(1 << 21) + u32(32768))
